@@ -27,6 +27,8 @@ fn texts() -> Vec<(&'static str, Vec<&'static str>, Vec<&'static str>)> {
         ("interface a { type t = u8; }\nworld w { use a.{t}; import f: func(x: t) -> t; export g: func() -> result<t, string>; import i: interface { h: func() -> option<u8>; }§ export a; }", vec!["a"], vec!["w"]),
         ("interface a { f: func(); }\ninterface b { g: func(); }\nworld w1 { import a; export b; }\nworld w2 { include w1; import x: func(); }", vec!["a", "b"], vec!["w1", "w2"]),
         ("world w1 { import f: func(); export g: func(); }\nworld w2 { include w1 with { f as ff, g as gg }§ }", vec![], vec!["w1", "w2"]),
+        ("interface a { type t = u32; type u = string; resource res { constructor(); } resource other { constructor(); } }\ninterface b { use a.{t as u, res as other}; }\ninterface c { use b.{u as v, other as mine}; f: func(x: v, y: borrow<mine>) -> v; }", vec!["a", "b", "c"], vec![]),
+        ("interface a { type t = u32; }\ninterface b { use a.{t}; }\ninterface c { use b.{t}; }\ninterface d { use c.{t as tt}; g: func() -> tt; }", vec!["a", "b", "c", "d"], vec![]),
         ("interface a { variant v { a(list<tuple<u8, u16>>), b(option<option<string>>), c(result), d(result<u8>), e(result<_, u8>) } f: func(x: v); }", vec!["a"], vec![]),
     ]
 }
